@@ -21,6 +21,7 @@ import (
 	"fmt"
 	"math"
 	"os"
+	"reflect"
 	"regexp"
 	"strconv"
 	"strings"
@@ -740,6 +741,12 @@ func execExotic(e *env, op *Op, out *Outcome) {
 			A uint
 			B complex128
 		}]int{{1, 2}: 1, {1, 1}: 2, {0, 3}: 3},
+		// keys that are equal in their leading components, or not ordered at all
+		map[[2]int]int{{1, 2}: 1, {1, 3}: 2}, map[[2]string]int{{"a", "b"}: 1, {"a", "c"}: 2}, map[[2]float64]int{{1, 2}: 1, {1, 3}: 2},
+		map[[2]bool]int{{true, false}: 1, {true, true}: 2}, map[[1]float64]int{{math.NaN()}: 1, {math.NaN()}: 2},
+		map[struct{ A, B int8 }]int{{1, 1}: 1, {1, 2}: 2}, map[[2]uint16]int{{7, 1}: 1, {7, 0}: 2}, map[[2]complex64]int{{1, 2}: 1, {1, 3}: 2},
+		map[[2]*int]int{{px, nil}: 1, {px, px}: 2}, map[[2]chan int]int{{es.C, nil}: 1, {es.C, es.C}: 2},
+		map[[2]interface{}]int{{1, 1}: 1, {1, "a"}: 2, {1, nil}: 3}, reflect.Value{}, reflect.ValueOf(redact.Safe(3)), reflect.ValueOf(nilp),
 		// values reachable through unexported fields only (printed by
 		// reflection; reflect forbids Interface() on them)
 		struct {
